@@ -1,7 +1,7 @@
 (* Properties/C13.v -- Disabled encodation modes are never used (the parts that are theorems). *)
 From Coq Require Import Arith NArith List Bool.
 From DM Require Import Generated.Symbols Generated.ModeTables Model.Outcome Model.SymbolList Model.Planner Model.PlannerRun Model.Enc
-  Model.Api Spec.Stream16022 Proofs.PlanShape Proofs.EncLatch Proofs.EncAscii Proofs.AsciiMinimal Proofs.EncAB.
+  Model.Api Spec.Stream16022 Proofs.PlanShape Proofs.EncLatch Proofs.EncAscii Proofs.AsciiMinimal Proofs.EncAB Proofs.EncAX.
 Import ListNotations.
 Local Open Scope N_scope.
 
@@ -56,6 +56,17 @@ Theorem C13_ascii_base256_only : forall sorter data symbols modes cw s,
     Forall (fun sg => match sg with SAscii _ | SB256 _ | SB256End _ => True | _ => False end) script.
 Proof. intros so d sy m cw s HS HM OK H. exact (proj1 (ab_modes_roundtrip so d sy m cw s HS HM OK H)). Qed.
 Print Assumptions C13_ascii_base256_only.
+
+(* the same with X12 in place of Base256: with only ASCII and X12 enabled the stream is a legal script of ASCII runs and X12 runs --
+   the only latch it contains is 238 -- and every character is carried by one of these two modes *)
+Theorem C13_ascii_x12_only : forall sorter data symbols modes cw s,
+  (forall k l l', sorter symbols k l = Ok l' -> incl l' l) ->
+  (forall m, enabled modes m = true -> m = Ascii \/ m = X12) -> bytes_ok data = true ->
+  encode_data_internal (optimize_fn sorter) data symbols None modes false false = Ok (cw, s) ->
+  exists script npad, script_ok script npad = true /\ cw = stream script npad /\ meaning script = data /\
+    Forall (fun sg => match sg with SAscii _ | SX12 _ _ => True | _ => False end) script.
+Proof. intros so d sy m cw s HS HM OK H. exact (proj1 (ax_modes_roundtrip so d sy m cw s HS HM OK H)). Qed.
+Print Assumptions C13_ascii_x12_only.
 
 (* what is NOT a theorem yet: that the codewords the six mode encoders write never contain, in ASCII context, a
    value that a reference decoder reads as a latch (this is the stream-level statement C02/T_enc); the check
